@@ -3,3 +3,5 @@
 pub mod algorithm;
 pub mod model;
 pub mod util;
+#[cfg(feature = "verif_hooks")]
+pub mod verif;
